@@ -1,6 +1,6 @@
 From SV Require Import Base.ListX Store.Raw Store.RawRefine Store.CleanProps Store.Masked Store.StoreInv Store.Bag Store.Ledger
   Store.ClearLedger Store.DeadHandle
-  World.Env World.SopLedger World.WorldLedger World.HistoryLedger World.WorldSpec World.World World.Simulation World.NoStuck.
+  World.Env World.Join World.SopLedger World.WorldLedger World.JoinLedger World.HistoryLedger World.WorldSpec World.World World.Simulation World.NoStuck.
 From Coq Require Import Sorting.Permutation.
 From SV Require Import Props.C08.
 Check (C08_never_exposes_an_unwritten_or_moved_out_slot : forall os,
@@ -89,3 +89,6 @@ Check (C08_everything_handed_back_or_destroyed_exactly_once : forall tr,
   regs_ok (s_init_env true) tr = true -> forallb (fun p => ledger_op (fst p)) tr = true ->
   keys_of (s_env (fst (srun (s_init_env true) tr))) = [] ->
   Permutation (run_rets (s_init_env true) tr ++ run_drops (s_init_env true) tr) (run_ins (s_init_env true) tr)).
+Check (C08_a_join_hands_out_exactly_what_it_drained : forall e av eids hs k ms, plain_env e ->
+  cx_stuck (se_cx (fst (env_join e av eids hs k ms))) = false ->
+  estep_ok e (fst (env_join e av eids hs k ms)) [] (jout_rets ms (snd (env_join e av eids hs k ms)))).
